@@ -259,6 +259,36 @@ def r11a(run):
                       necessity="e.g. invalid_keys='exclude' would drop entries with invalid *values*", node=h)
 
 
+def r11c(run):
+    """error isolation: the conversion guarded by a policy handler runs on a child context"""
+    ss = sites(run)
+    for s in ss:
+        f, fa, c = s.f, s.fa, s.cc
+        base = c.func
+        while isinstance(base, ast.Attribute):
+            base = base.value
+        ok = False
+        what = unparse(c.func)
+        if isinstance(base, ast.Name):
+            os_ = prov(fa).of_name(s.cn, base.id)
+            # the receiver (or the transformer it was taken from) comes from `with <ctx>.enter(...) as <name>`
+            def child(o, depth=0):
+                if o.kind == "with" and ".enter(" in o.text:
+                    return True
+                if o.kind == "attr" and o.base and depth < 3:
+                    return all(child(b, depth + 1) for b in o.base)
+                return False
+            ok = bool(os_) and all(child(o) for o in os_)
+        run.check("R11c", f, f"`{what}` (guarded by an exclude/preserve policy) runs on a child context", ok,
+                  construct="policy-guarded conversion on the caller's context",
+                  message=f"{f.qualname}: `{unparse(c)[:70]}` converts with the caller's own context; a nested constrained "
+                          f"type records its failure there before raising",
+                  necessity="the offending element is excluded / preserved by the handler, but its error stays in the "
+                            "owner's context: the final raise_error() fails the whole parse although the policy says the "
+                            "parse succeeds without the element", node=c)
+    run.floor("R11c", "policy-guarded conversions", len(ss), 8)
+
+
 def r11b(run):
     f = run.repo.func("utype.parser.field", "ParserField.parse_value")
     fa = analysis(f)
@@ -281,7 +311,7 @@ def r11b(run):
 
 
 def check(run):
-    run.rules_run += ["R11a", "R11b", "R04c"]
+    run.rules_run += ["R11a", "R11b", "R11c", "R04c"]
     run.explain("C11: every catch-all handler around a conversion that consults an exclude/preserve policy (directly or "
                 "through a local bound to get_on_error / on_error) is partitioned by the policy literal: EXCLUDE warns, "
                 "never raises, and no store of the element / no value return is reachable; PRESERVE warns, never raises, "
@@ -290,4 +320,5 @@ def check(run):
                 "(R11b). Element parsers only apply operations every dispatched container type supports (R04c).")
     r11a(run)
     r11b(run)
+    r11c(run)
     c04.r04c(run)
